@@ -65,9 +65,9 @@ def main():
     small = [t for t in alias if len(t) == 1]
     big = [t for t in alias if len(t) > 1]
     c.rng.shuffle(big)
-    alias = small + big[:6000 if T else 200]
+    alias = small + big[:1800 if T else 110]
     c.rng.shuffle(vers)
-    vers = vers[:1056 if T else 70]
+    vers = vers[:600 if T else 40]
     jobs = []     # (stem, rows, kinds)
     c.rng.shuffle(single)
     for i in range(0, len(single), 96):
@@ -77,7 +77,7 @@ def main():
     napi = {"al": 3, "ve": 2}           # the API view is taken for every n-th small table (always for the big ones)
     for i, t in enumerate(vers):
         jobs.append(("ve%05d" % i, t, ("dso-bfd", "dso-lld", "exec-dyn-bfd", "exec-dyn-lld", "rel")))
-    for i in range(60 if T else 8):
+    for i in range(40 if T else 6):
         jobs.append(("rnd%03d" % i, symasm.random_table(c.rng, c.rng.randrange(10, 120), versions=(i % 2 == 0)), symasm.KINDS))
 
     def run_job(job):
@@ -117,8 +117,7 @@ def main():
     c.cov["evaluations"] = len(events)
 
     # ---- TLC judges
-    case_of = lambda ev: symcamp.payload_of(ev)
-    vf.pmap(lambda sh: c.validate("SymtabTrace.tla", "SymtabTrace.cfg", sh, case_of=case_of, env=symcamp.TLC_ENV), symcamp.shards(events, 400), jobs=3)
+    symcamp.judge(c, "SymtabTrace.tla", "SymtabTrace.cfg", events)
 
     nontrivial = set()
     kinds = {}
